@@ -560,7 +560,7 @@ def build_request(req, intern, now=None):
                 username=req["cred"][0], password=req["cred"][1]))])
     hdr = messages.RequestHeader(
         protocol_version=contents.ProtocolVersion(ver[0], ver[1]),
-        maximum_response_size=contents.MaximumResponseSize(req["maxsize"]) if req.get("maxsize") else None,
+        maximum_response_size=contents.MaximumResponseSize(req["maxsize"]) if req.get("maxsize") is not None else None,
         asynchronous_indicator=contents.AsynchronousIndicator(True) if req.get("async") else None,
         authentication=auth,
         batch_error_cont_option=None if opt == "None" else contents.BatchErrorContinuationOption(
